@@ -210,7 +210,7 @@ class relativedelta(object):
                 yday = nlyearday
             elif yearday:
                 yday = yearday
-                if yearday > 59:
+                if 59 < yearday < 366:
                     self.leapdays = -1
             if yday:
                 ydayidx = [31, 59, 90, 120, 151, 181, 212,
